@@ -537,7 +537,8 @@ fn run_e2e(c: &[u64]) -> Vec<u64> {
         let mut dialer = dialer;
         let reader = tokio::spawn(async move {
             let mut frames: Vec<Vec<u8>> = Vec::new();
-            let mut sub = match tokio::time::timeout(limit, listener).await {
+            // yamux announces a stream with its first data frame; a dialer that never writes is never seen
+            let mut sub = match tokio::time::timeout(Duration::from_secs(2), listener).await {
                 Ok(Ok(s)) => s,
                 _ => return (frames, 8u64),
             };
@@ -615,7 +616,7 @@ fn gen_e2e(rng: &mut Rng, thorough: bool) -> Vec<u64> {
         if rng.chance(55) {
             ops.extend([1, b, len]);
             unflushed = true;
-            if rng.chance(50) {
+            if i == 0 || rng.chance(50) {
                 ops.push(2);
                 nops += 1;
                 unflushed = false;
@@ -626,7 +627,8 @@ fn gen_e2e(rng: &mut Rng, thorough: bool) -> Vec<u64> {
         }
         nops += 1;
     }
-    if unflushed && rng.chance(50) {
+    // callers flush before closing; now and then the close comes first and the queued frames are dropped
+    if unflushed && rng.chance(80) {
         ops.push(2);
         nops += 1;
     }
